@@ -39,3 +39,26 @@ Example request_example :
       (Build_ref_start_req (Some (Sub 0 [71;69;84]%N)) (Some (Sub 4 [47;120]%N)) (Some 1%N))
       [(Sub 17 [65%N], Sub 20 [98%N])].
 Proof. split; [repeat constructor|vm_compute; reflexivity]. Qed.
+
+(* ---- tie to the source: every statement above is about Model.v / Api.v; Proofs/Src*.v prove that the
+   functions TRANSLATED from /repo/src/lib.rs on this run (Generated/Lib.v, LibApi.v) compute the same
+   results, for every environment whose scanners only move forward (all concrete backends do), so each
+   theorem of this file holds of the translated source by rewriting with `source_tie`.  Only the entry-point
+   families this property speaks about are imported (Req) ---- *)
+From HV Require Import Backends.
+From HV.Proofs Require Import Mono BackendsFwd SrcReq.
+Theorem source_tie : forall E, env_fwd E -> request_source_is_model E.
+Proof. intros E HE. repeat split; first [apply src_tie_request]; exact HE. Qed.
+Print Assumptions source_tie.
+Theorem source_tie_backends : forall W be, request_source_is_model (env_of W be).
+Proof. intros W be. apply source_tie, backends_fwd. Qed.
+Print Assumptions source_tie_backends.
+
+Theorem src_request_ref_eq : forall E, env_ok E -> env_fwd E -> forall cf buf rq arr, bytes_ok buf ->
+  src_request_core E cf buf rq arr = req_result rq arr (ref_request cf (length arr) buf).
+Proof. intros E HE HF cf buf rq arr Hb. rewrite src_request_core_eq by exact HF. apply request_core_ref; assumption. Qed.
+Print Assumptions src_request_ref_eq.
+Theorem src_request_entries_ref_eq : forall E, env_ok E -> env_fwd E -> forall e cf buf arr rq, bytes_ok buf ->
+  src_request_call E e cf buf arr rq = req_call_result e cf buf arr rq.
+Proof. intros E HE HF e cf buf arr rq Hb. rewrite src_request_call_eq by exact HF. apply request_call_ref; assumption. Qed.
+Print Assumptions src_request_entries_ref_eq.
